@@ -71,13 +71,24 @@ func stdHistoryOps(fn *stdFn, perClass, maxOps int, oracle func(fn *stdFn, args 
 	})
 	// simplest first, then thinned through the rest so that late symbols of the dictionaries
 	// are reached too
+	// thinning applies only to the sweep of the first position (the largest dictionary: format
+	// strings, patterns); every combination of the later positions next to the first position's
+	// base value is always considered, so that the selection does not depend on how long the
+	// first dictionary happens to be
+	baseFirst := map[int]string{}
+	for _, l := range lists {
+		if _, ok := baseFirst[len(l)]; !ok && len(l) > 0 {
+			baseFirst[len(l)] = goStr(l[0])
+		}
+	}
+	atBase := func(l []cty.Value) bool { return len(l) > 0 && goStr(l[0]) == baseFirst[len(l)] }
 	for i, l := range lists {
-		if i < 300 || i%3 == 0 {
+		if i < 300 || i%3 == 0 || atBase(l) {
 			consider(l)
 		}
 	}
 	for i, l := range lists {
-		if i >= 200 && i%2 == 0 && len(lists) > 1000 {
+		if i >= 200 && i%2 == 0 && len(lists) > 1000 && !atBase(l) {
 			continue
 		}
 		for p := range l {
